@@ -265,6 +265,22 @@ def new_client(variant: str, cfg: dict):
     return mod, client, tracer
 
 
+def canon_run(log, fc, exc, wires, frames):
+    """(connect, events, fin) in canonical form from what one FakeConnect / log pair recorded"""
+    fin = "finished" if exc is None else classify_exception(exc, wires, frames)
+    events = [([x[0], canon_sent(x[1])] if x[0] == "s" else x) if isinstance(x, list) else x for x in log]
+    connect = None
+    if len(fc.calls) == 1:
+        args, kwargs = fc.calls[0]
+        kwargs = dict(kwargs)
+        sub = kwargs.pop("subprotocols", None)
+        # (the fake connect has signature (*args, **kwargs), so _ws_headers_keyword() of /repo 91472e8 picks
+        # "extra_headers" here; which keyword the real library takes is decided by the real-server run)
+        connect = [list(args), [str(s) for s in (sub or [])],
+                   {k: (str(v) if k == "origin" and v is not None else v) for k, v in kwargs.items()}]
+    return connect, events, fin
+
+
 def run_fake(variant: str, cfg: dict, query, opname, variables, frames, existing=None, kwargs=None) -> dict:
     """one execute_ws run against the scripted fake connection -> canonical trace.
     existing: (module, client, tracer) of new_client() to run on an object that already has a history;
@@ -283,17 +299,7 @@ def run_fake(variant: str, cfg: dict, query, opname, variables, frames, existing
                                       **(call_kwargs(cfg) if kwargs is None else kwargs)), log)
     finally:
         mod.ws_connect = old
-    fin = "finished" if exc is None else classify_exception(exc, wires, frames)
-    events = [([x[0], canon_sent(x[1])] if x[0] == "s" else x) if isinstance(x, list) else x for x in log]
-    connect = None
-    if len(fc.calls) == 1:
-        args, kwargs = fc.calls[0]
-        kwargs = dict(kwargs)
-        sub = kwargs.pop("subprotocols", None)
-        # (the fake connect has signature (*args, **kwargs), so _ws_headers_keyword() of /repo 91472e8 picks
-        # "extra_headers" here; which keyword the real library takes is decided by the real-server run)
-        connect = [list(args), [str(s) for s in (sub or [])],
-                   {k: (str(v) if k == "origin" and v is not None else v) for k, v in kwargs.items()}]
+    connect, events, fin = canon_run(log, fc, exc, wires, frames)
     return {"connect": connect, "events": events, "fin": fin,
             "spans": [s.name for s in tracer.spans[span0:]] if tracer else [],
             "ctx": (len(fc.calls), fc.entered, fc.exited),
